@@ -141,12 +141,19 @@ def r1_inventory(ctx):
         walk(f.blocks)
         return out
     reach = facts.reachable_fns([n for n in PAR_CLOSURES if n in facts.fns] + [SEARCH, MINIMAX])
+    # an immutable static of a type without interior mutability is a constant table with an address, not shared state
+    mutable_static = {}
+    for key in (('chess', 'lib'), ('common', 'lib')):
+        for c in facts.crates[key]['consts']:
+            if c.get('item_kind', '').startswith('Static'):
+                mutable_static[c['path']] = ('mutability: Mut' in c['item_kind']) or bool(INTERIOR.search(c.get('ty', '')))
     touched = {}
     for rn in reach:
         rf = facts.fns.get(rn)
         if rf is not None and rf.crate in ('chess', 'common'):
             for st_ in statics_of(rf):
-                touched.setdefault(st_, []).append(rn)
+                if mutable_static.get(st_, True):
+                    touched.setdefault(st_, []).append(rn)
     ctx.ob(rule, 'chess::*', 'no static item is referred to by code the parallel tasks can reach (shared global state)', not touched,
            found={k: sorted(v)[:3] for k, v in touched.items()} or {'statics elsewhere': statics}, expected={})
     # thread-locals / statics referenced from MIR
